@@ -2,9 +2,9 @@ package harness
 
 import (
 	"context"
+	"encoding/binary"
 	"fmt"
 	"math"
-	"encoding/binary"
 	"net"
 	"path/filepath"
 	"sync"
